@@ -135,6 +135,26 @@ rename happens while the handle is open; the flush then goes into the inode now 
 def saveEarlyReplace (w : σ) : List (Op σ) :=
   [.openW .new, .write .new w, .replace .new .base, .close .base w]
 
+/-- Exception-style crash: a Python exception raised at the point where `ops` was interrupted
+propagates; every state a kill could leave is a state the exception can leave (the `with` block only
+closes the handle: a truncated file stays truncated), and then the handler `cleanup` (a `finally:`
+clause) runs on that directory (its first failing operation raises and ends it). -/
+def unwindStates (fs : FS σ) (ops cleanup : List (Op σ)) : List (FS σ) :=
+  (crashStates fs ops).map (fun s => runOps s cleanup)
+
+def unwindStatesL (fs : FS σ) (ops cleanup : List (Op σ)) : List (String × FS σ) :=
+  (crashStatesL fs 0 ops).map (fun (l, s) => (l, runOps s cleanup))
+
+/-- Variant `try: with open(.new) …: dump  finally: os.replace(.new, base)`: protected body and
+handler. Its undisturbed path is `saveNew`. -/
+def finallyBody (w : σ) : List (Op σ) := [.openW .new, .write .new w, .close .new w]
+def finallyCleanup : List (Op σ) := [.replace .new .base]
+
+/-- `save_simulation` of a back-end resumed from a file whose suffix is already `.new`:
+`basename.with_suffix(".new") == basename`, all four operations act on the advertised file. -/
+def saveAliased (w : σ) : List (Op σ) :=
+  [.openW .base, .write .base w, .close .base w, .replace .base .base]
+
 /-- The code before commit 3262c67: write `.new`; `if base.is_file(): rename(base, .bak)`;
 `rename(.new, base)`; `if .bak.is_file(): remove(.bak)`. The two `is_file()` tests are resolved
 from the directory state at entry (`.bak` exists afterwards iff `base` or `.bak` existed). -/
